@@ -414,9 +414,10 @@ impl Transaction {
     //
     pub fn create_rebroadcast_bound_transaction(
         transaction_to_rebroadcast: &Transaction,
-        slip1: Slip, // first Bound slip
-        slip2: Slip, // Normal slip (amount already includes payout)
-        slip3: Slip, // second Bound slip
+        slip1: Slip,        // first Bound slip
+        slip2: Slip,        // Normal slip as input (amount already includes payout)
+        output_slip2: Slip, // the same slip as it is re-issued (payout minus the rebroadcast fee)
+        slip3: Slip,        // second Bound slip
     ) -> Transaction {
         let mut tx = Transaction::default();
         tx.transaction_type = TransactionType::ATR;
@@ -447,7 +448,7 @@ impl Transaction {
         //
         tx.add_to_slip(slip1);
         {
-            let mut output2 = slip2.clone();
+            let mut output2 = output_slip2;
             output2.slip_type = SlipType::ATR;
             tx.add_to_slip(output2);
         }
